@@ -49,6 +49,7 @@ struct VThread
   int joinTarget;
   long blockCount;
   unsigned long lastRun;
+  unsigned long long hist[64]; int hn; unsigned long histOpCount;
 };
 struct VMutex { const void* addr; bool live; int type; int owner; int count; };
 struct VCond { const void* addr; bool live; unsigned long seq; };
@@ -143,8 +144,13 @@ static int rt_choose(int n, const char* what)
     rt_abort_execution(VF_HARNESS, "harness:replay-divergence", b);
   }
   sh->taken[pos] = (short)c; sh->arity[pos] = (short)n; sh->ntaken = pos + 1;
-  if(pos == 1 && vf_config.nshards > 1 && (unsigned)(sh->taken[0] * 131 + sh->taken[1]) % (unsigned)vf_config.nshards != (unsigned)vf_config.shard)
-    rt_abort_execution(VF_FOREIGN, "", "");
+  // work is split between explorer processes by the position and value of the first non-default choice
+  static bool sawNonDefault = false;
+  if(c != 0 && !sawNonDefault)
+  {
+    sawNonDefault = true; sh->sawNonDefault = 1;
+    if(vf_config.nshards > 1 && (unsigned)(pos * 7 + c) % (unsigned)vf_config.nshards != (unsigned)vf_config.shard) rt_abort_execution(VF_FOREIGN, "", "");
+  }
   return c;
 }
 extern "C" int vf_env_choice(int n)
@@ -212,6 +218,7 @@ static void finish_execution(int status, const char* key, const char* msg)
   vf_shared->steps = rt.steps;
   vf_shared->preemptions = rt.preemptions; vf_shared->deviations = rt.deviations;
   vf_shared->finished = 1;
+  if(!vf_shared->sawNonDefault && vf_config.nshards > 1 && vf_config.shard != 0) vf_shared->status = VF_FOREIGN;   // the all-default execution belongs to shard 0
   fflush(stdout);
   _exit(0);     // ends every thread of this execution
 }
@@ -246,7 +253,26 @@ static void pick_next(bool meCanContinue)
     for(int i = 0; i < rt.nthreads; ++i) if(&T[i] != me && enabled(&T[i])) ++enabledOthers;
     if(meCanContinue && !me->yielding) { cand[n] = me->id; kind[n++] = 0; }
     int firstOther = n;
-    if(mayPreempt)
+    if(meCanContinue && me->yielding)
+    { // a spinning / yielding thread hands over without branching: the enabled thread that ran least recently goes on (fairness);
+      // every other order is still reachable through preemptions of the threads that make progress
+      int best = -1;
+      for(int i = 0; i < rt.nthreads; ++i) if(&T[i] != me && enabled(&T[i]) && !T[i].yielding && (best < 0 || T[i].lastRun < T[best].lastRun)) best = i;
+      if(best >= 0) { cand[n] = best; kind[n++] = 0; }
+    }
+    else if(!meCanContinue && vf_config.delayBounded)
+    { // delay bounding: when the running thread blocks or ends, the default successor is the next enabled thread in
+      // round-robin order; any other successor costs one unit of the budget
+      int def = -1;
+      for(int k = 1; k <= rt.nthreads; ++k) { int i = (me->id + k) % rt.nthreads; if(&T[i] != me && enabled(&T[i]) && !T[i].yielding) { def = i; break; } }
+      if(def >= 0)
+      {
+        cand[n] = def; kind[n++] = 0;
+        if(rt.preemptions < vf_config.preemptionBound)
+          for(int i = 0; i < rt.nthreads; ++i) if(&T[i] != me && i != def && enabled(&T[i]) && !T[i].yielding) { cand[n] = i; kind[n++] = 0; }
+      }
+    }
+    else if(mayPreempt)
       for(int i = 0; i < rt.nthreads; ++i) if(&T[i] != me && enabled(&T[i]) && !T[i].yielding) { cand[n] = i; kind[n++] = 0; }
     if(meUnblocked) { cand[n] = me->id; kind[n++] = 0; }
     if(n == 0)
@@ -305,6 +331,7 @@ static void pick_next(bool meCanContinue)
     }
     VThread* next = &T[cand[c]];
     if(next != me && meCanContinue && !me->yielding && c >= firstOther) ++rt.preemptions;
+    else if(!meCanContinue && vf_config.delayBounded && c > 0 && kind[c] == 0) ++rt.preemptions;
     if(next == me) return;
     trace("  [switch] thread %d -> thread %d", me->id, next->id);
     rt.current = next->id;
@@ -316,15 +343,32 @@ static void pick_next(bool meCanContinue)
 }
 
 // a visible operation of the running thread is about to happen
-static void point(int opkind, const void* addr)
+static long long peek(const void* a, int n);
+static void point(int opkind, const void* addr, int size = 0)
 {
   if(!rt.active || !self) return;
   VThread* me = self;
   if(++rt.steps > vf_config.horizon) { finish_execution(VF_VIOLATION, "horizon", "execution exceeded the step horizon (non-terminating or livelocked)"); park_forever(); }
-  (void)opkind; (void)addr;
   pick_next(true);
+  if(vf_config.trace)
+  {
+    static const char* names[] = {"lock", "trylock", "unlock", "cond-wait", "cond-signal", "cond-broadcast", "sem-post", "sem-wait", "sem-trywait", "thread-create", "join", "yield", "sleep", "init", "destroy", "atomic", "volatile-read", "volatile-write", "plain"};
+    trace("  t%d %s %p", me->id, opkind >= 100 && opkind <= 118 ? names[opkind - 100] : "?", addr);
+  }
   // the thread performs its operation now: others stop being considered as "spinning without competition"
+  // cycle detection: a thread that repeats the same sequence of operations on unchanged memory while nobody else runs
+  // is spinning (e.g. a retry loop around a flag another thread is about to change); it yields to the others
+  {
+    unsigned long long sig = (unsigned long long)opkind * 1000003ULL ^ (unsigned long long)(uintptr_t)addr * 0x9E3779B97F4A7C15ULL;
+    if(size > 0 && size <= 8 && addr) sig ^= (unsigned long long)peek(addr, size) * 0xC2B2AE3D27D4EB4FULL + 1;
+    if(me->histOpCount != rt.opCount) me->hn = 0;     // somebody else ran in between
+    if(me->hn == 64) { memmove(me->hist, me->hist + 32, 32 * sizeof(me->hist[0])); me->hn = 32; }
+    me->hist[me->hn++] = sig;
+    for(int p = 1; p <= 24 && 2 * p <= me->hn; ++p)
+      if(memcmp(me->hist + me->hn - p, me->hist + me->hn - 2 * p, p * sizeof(me->hist[0])) == 0) { if(p > 1 || me->hn >= 3) me->yielding = true; break; }
+  }
   ++rt.opCount;
+  me->histOpCount = rt.opCount;
   me->lastRun = rt.opCount;
   if(!me->yielding) for(int i = 0; i < rt.nthreads; ++i) if(&T[i] != me) T[i].yielding = false;
 }
@@ -600,25 +644,25 @@ static long long peek(const void* a, int n)
   switch(n) { case 1: return *(const volatile uint8_t*)a; case 2: return *(const volatile uint16_t*)a; case 4: return *(const volatile uint32_t*)a; case 8: return (long long)*(const volatile uint64_t*)a; }
   return 0;
 }
-#define VOL(N) RT_EXPORT void __tsan_volatile_read##N(void* a) { if(!rt.active || !self) return; point(OP_VREAD, a); observed(OP_VREAD, a, peek(a, N)); } \
-  RT_EXPORT void __tsan_volatile_write##N(void* a) { if(!rt.active || !self) return; point(OP_VWRITE, a); } \
-  RT_EXPORT void __tsan_unaligned_volatile_read##N(void* a) { if(!rt.active || !self) return; point(OP_VREAD, a); observed(OP_VREAD, a, peek(a, N)); } \
-  RT_EXPORT void __tsan_unaligned_volatile_write##N(void* a) { if(!rt.active || !self) return; point(OP_VWRITE, a); }
+#define VOL(N) RT_EXPORT void __tsan_volatile_read##N(void* a) { if(!rt.active || !self) return; point(OP_VREAD, a, N); observed(OP_VREAD, a, peek(a, N)); } \
+  RT_EXPORT void __tsan_volatile_write##N(void* a) { if(!rt.active || !self) return; point(OP_VWRITE, a, N); } \
+  RT_EXPORT void __tsan_unaligned_volatile_read##N(void* a) { if(!rt.active || !self) return; point(OP_VREAD, a, N); observed(OP_VREAD, a, peek(a, N)); } \
+  RT_EXPORT void __tsan_unaligned_volatile_write##N(void* a) { if(!rt.active || !self) return; point(OP_VWRITE, a, N); }
 VOL(1) VOL(2) VOL(4) VOL(8) VOL(16)
 
 #define ATOMICS(N, T) \
-  RT_EXPORT T __tsan_atomic##N##_load(const volatile T* a, int) { point(OP_ATOMIC, (const void*)a); T v = __atomic_load_n(a, __ATOMIC_SEQ_CST); observed(OP_ATOMIC, (const void*)a, (long long)v); return v; } \
-  RT_EXPORT void __tsan_atomic##N##_store(volatile T* a, T v, int) { point(OP_ATOMIC, (const void*)a); __atomic_store_n(a, v, __ATOMIC_SEQ_CST); } \
-  RT_EXPORT T __tsan_atomic##N##_exchange(volatile T* a, T v, int) { point(OP_ATOMIC, (const void*)a); T o = __atomic_exchange_n(a, v, __ATOMIC_SEQ_CST); if(o == v) observed(OP_ATOMIC + 1, (const void*)a, (long long)o); return o; } \
-  RT_EXPORT T __tsan_atomic##N##_fetch_add(volatile T* a, T v, int) { point(OP_ATOMIC, (const void*)a); return __atomic_fetch_add(a, v, __ATOMIC_SEQ_CST); } \
-  RT_EXPORT T __tsan_atomic##N##_fetch_sub(volatile T* a, T v, int) { point(OP_ATOMIC, (const void*)a); return __atomic_fetch_sub(a, v, __ATOMIC_SEQ_CST); } \
-  RT_EXPORT T __tsan_atomic##N##_fetch_and(volatile T* a, T v, int) { point(OP_ATOMIC, (const void*)a); return __atomic_fetch_and(a, v, __ATOMIC_SEQ_CST); } \
-  RT_EXPORT T __tsan_atomic##N##_fetch_or(volatile T* a, T v, int) { point(OP_ATOMIC, (const void*)a); return __atomic_fetch_or(a, v, __ATOMIC_SEQ_CST); } \
-  RT_EXPORT T __tsan_atomic##N##_fetch_xor(volatile T* a, T v, int) { point(OP_ATOMIC, (const void*)a); return __atomic_fetch_xor(a, v, __ATOMIC_SEQ_CST); } \
-  RT_EXPORT T __tsan_atomic##N##_fetch_nand(volatile T* a, T v, int) { point(OP_ATOMIC, (const void*)a); return __atomic_fetch_nand(a, v, __ATOMIC_SEQ_CST); } \
-  RT_EXPORT int __tsan_atomic##N##_compare_exchange_strong(volatile T* a, T* c, T v, int, int) { point(OP_ATOMIC, (const void*)a); T exp = *c; int ok = __atomic_compare_exchange_n(a, c, v, 0, __ATOMIC_SEQ_CST, __ATOMIC_SEQ_CST); if(!ok) observed(OP_ATOMIC + 2, (const void*)a, (long long)exp); return ok; } \
-  RT_EXPORT int __tsan_atomic##N##_compare_exchange_weak(volatile T* a, T* c, T v, int, int) { point(OP_ATOMIC, (const void*)a); T exp = *c; int ok = __atomic_compare_exchange_n(a, c, v, 0, __ATOMIC_SEQ_CST, __ATOMIC_SEQ_CST); if(!ok) observed(OP_ATOMIC + 2, (const void*)a, (long long)exp); return ok; } \
-  RT_EXPORT T __tsan_atomic##N##_compare_exchange_val(volatile T* a, T c, T v, int, int) { point(OP_ATOMIC, (const void*)a); T exp = c; __atomic_compare_exchange_n(a, &exp, v, 0, __ATOMIC_SEQ_CST, __ATOMIC_SEQ_CST); if(exp != c) observed(OP_ATOMIC + 2, (const void*)a, (long long)exp); return exp; }
+  RT_EXPORT T __tsan_atomic##N##_load(const volatile T* a, int) { point(OP_ATOMIC, (const void*)a, (int)sizeof(T)); T v = __atomic_load_n(a, __ATOMIC_SEQ_CST); observed(OP_ATOMIC, (const void*)a, (long long)v); return v; } \
+  RT_EXPORT void __tsan_atomic##N##_store(volatile T* a, T v, int) { point(OP_ATOMIC, (const void*)a, (int)sizeof(T)); __atomic_store_n(a, v, __ATOMIC_SEQ_CST); } \
+  RT_EXPORT T __tsan_atomic##N##_exchange(volatile T* a, T v, int) { point(OP_ATOMIC, (const void*)a, (int)sizeof(T)); T o = __atomic_exchange_n(a, v, __ATOMIC_SEQ_CST); if(o == v) observed(OP_ATOMIC + 1, (const void*)a, (long long)o); return o; } \
+  RT_EXPORT T __tsan_atomic##N##_fetch_add(volatile T* a, T v, int) { point(OP_ATOMIC, (const void*)a, (int)sizeof(T)); return __atomic_fetch_add(a, v, __ATOMIC_SEQ_CST); } \
+  RT_EXPORT T __tsan_atomic##N##_fetch_sub(volatile T* a, T v, int) { point(OP_ATOMIC, (const void*)a, (int)sizeof(T)); return __atomic_fetch_sub(a, v, __ATOMIC_SEQ_CST); } \
+  RT_EXPORT T __tsan_atomic##N##_fetch_and(volatile T* a, T v, int) { point(OP_ATOMIC, (const void*)a, (int)sizeof(T)); return __atomic_fetch_and(a, v, __ATOMIC_SEQ_CST); } \
+  RT_EXPORT T __tsan_atomic##N##_fetch_or(volatile T* a, T v, int) { point(OP_ATOMIC, (const void*)a, (int)sizeof(T)); return __atomic_fetch_or(a, v, __ATOMIC_SEQ_CST); } \
+  RT_EXPORT T __tsan_atomic##N##_fetch_xor(volatile T* a, T v, int) { point(OP_ATOMIC, (const void*)a, (int)sizeof(T)); return __atomic_fetch_xor(a, v, __ATOMIC_SEQ_CST); } \
+  RT_EXPORT T __tsan_atomic##N##_fetch_nand(volatile T* a, T v, int) { point(OP_ATOMIC, (const void*)a, (int)sizeof(T)); return __atomic_fetch_nand(a, v, __ATOMIC_SEQ_CST); } \
+  RT_EXPORT int __tsan_atomic##N##_compare_exchange_strong(volatile T* a, T* c, T v, int, int) { point(OP_ATOMIC, (const void*)a, (int)sizeof(T)); T exp = *c; int ok = __atomic_compare_exchange_n(a, c, v, 0, __ATOMIC_SEQ_CST, __ATOMIC_SEQ_CST); if(!ok) observed(OP_ATOMIC + 2, (const void*)a, (long long)exp); return ok; } \
+  RT_EXPORT int __tsan_atomic##N##_compare_exchange_weak(volatile T* a, T* c, T v, int, int) { point(OP_ATOMIC, (const void*)a, (int)sizeof(T)); T exp = *c; int ok = __atomic_compare_exchange_n(a, c, v, 0, __ATOMIC_SEQ_CST, __ATOMIC_SEQ_CST); if(!ok) observed(OP_ATOMIC + 2, (const void*)a, (long long)exp); return ok; } \
+  RT_EXPORT T __tsan_atomic##N##_compare_exchange_val(volatile T* a, T c, T v, int, int) { point(OP_ATOMIC, (const void*)a, (int)sizeof(T)); T exp = c; __atomic_compare_exchange_n(a, &exp, v, 0, __ATOMIC_SEQ_CST, __ATOMIC_SEQ_CST); if(exp != c) observed(OP_ATOMIC + 2, (const void*)a, (long long)exp); return exp; }
 ATOMICS(8, uint8_t) ATOMICS(16, uint16_t) ATOMICS(32, uint32_t) ATOMICS(64, uint64_t)
 RT_EXPORT void __tsan_atomic_thread_fence(int) { if(rt.active && self) point(OP_ATOMIC, 0); }
 RT_EXPORT void __tsan_atomic_signal_fence(int) {}
